@@ -161,10 +161,83 @@ var recursionExempt = map[string]string{
 	"(*nfa.CharClassSearcher).SearchAt": "tail call with a strictly larger offset after a scan that ended at that offset: the scans are disjoint, total work is linear in the haystack",
 }
 
+// recursionAdvances: fn takes a haystack, and the recursive call site passes, for one of fn's int parameters, that
+// parameter plus something (the position moves on). bounded names another int parameter that the call passes
+// incremented by a positive constant and that fn compares with the length of a slice held by its receiver
+// (a count of pattern parts): the nesting depth is then bounded by the pattern, not by the input.
+func recursionAdvances(fn *ssa.Function, site ssa.CallInstruction) (advances bool, bounded string, what string) {
+	hasHay := false
+	for _, prm := range fn.Params {
+		if isByteSlice(prm.Type()) {
+			hasHay = true
+		}
+	}
+	if !hasHay {
+		return false, "", ""
+	}
+	callee := site.Common().StaticCallee()
+	if callee != fn {
+		// mutual recursion: compare by position only when the signatures agree
+		if callee == nil || callee.Signature.Params().Len() != fn.Signature.Params().Len() {
+			return false, "", ""
+		}
+	}
+	args := site.Common().Args
+	for i, prm := range fn.Params {
+		if i >= len(args) || !isIntType(prm.Type()) {
+			continue
+		}
+		bo, ok := args[i].(*ssa.BinOp)
+		if !ok || bo.Op != token.ADD || (bo.X != ssa.Value(prm) && bo.Y != ssa.Value(prm)) {
+			continue
+		}
+		other := bo.Y
+		if bo.Y == ssa.Value(prm) {
+			other = bo.X
+		}
+		if c, isC := constInt(other); isC && c <= 0 {
+			continue
+		}
+		// is this parameter compared with len(receiver field)?
+		patternBound := false
+		if prm.Referrers() != nil {
+			for _, r := range *prm.Referrers() {
+				cmp, ok := r.(*ssa.BinOp)
+				if !ok {
+					continue
+				}
+				switch cmp.Op {
+				case token.LSS, token.LEQ, token.GTR, token.GEQ, token.EQL, token.NEQ:
+				default:
+					continue
+				}
+				o := cmp.Y
+				if cmp.Y == ssa.Value(prm) {
+					o = cmp.X
+				}
+				if ln, ok := o.(*ssa.Call); ok {
+					if bi, ok := ln.Call.Value.(*ssa.Builtin); ok && bi.Name() == "len" && len(ln.Call.Args) == 1 {
+						if innerField(ln.Call.Args[0]) != nil && !isByteSlice(ln.Call.Args[0].Type()) {
+							patternBound = true
+						}
+					}
+				}
+			}
+		}
+		if _, isC := constInt(other); isC && patternBound {
+			bounded = "the parameter " + prm.Name()
+			continue
+		}
+		advances = true
+		what = prm.Name()
+	}
+	return advances, bounded, what
+}
+
 func init() {
 	core.Register(&core.Rule{
 		Name: "R-RECURSION",
-		Doc: "Every call-graph cycle reachable from a search root (other than structural recursion over the *syntax.Regexp tree, which the parser's nesting limit bounds) must pass, on every path from function entry to a recursive call, through a visited gate: a bool function that tests-and-sets an element of a per-search table, whose false result leads away from the recursion. Necessary for C05 (an ungated recursion over (part, position) re-explores polynomially/exponentially) and for C07's termination.",
+		Doc: "Every call-graph cycle reachable from a search root (other than structural recursion over the *syntax.Regexp tree, which the parser's nesting limit bounds) must pass, on every path from function entry to a recursive call, through a visited gate: a bool function that tests-and-sets an element of a per-search table, whose false result leads away from the recursion. Necessary for C05 (an ungated recursion over (part, position) re-explores polynomially/exponentially) and for C07's termination. (b) Stack depth: in a function with a haystack parameter, a recursive call that passes one of the function's int parameters plus something (the position moves on through the input) nests once per consumed byte; it is accepted only when another int argument is passed incremented by a positive constant and the function compares that parameter with the length of a slice held by its receiver (a count of pattern parts), so that the depth is bounded by the pattern. A visited table does not bound the depth, only the work: the bounded backtracker recursed once per step of the path it followed, and ^(\\w+\\s*)+$ on a 2 MB line ended the process with 'fatal error: stack overflow' (C07: no fatal error) => fixed by an explicit stack.",
 		Min: 6, NeedSSA: true,
 		Run: func(p *core.Prog) *core.RuleResult {
 			a := OwnAnalysis(p)
@@ -236,6 +309,22 @@ func init() {
 							}
 						}
 						res.Obligations = append(res.Obligations, o)
+						// (b) stack depth: a recursive call that moves on through the haystack nests once per
+						// consumed byte unless another argument counts towards a bound taken from the pattern
+						if astRec {
+							continue
+						}
+						if adv, bounded, what := recursionAdvances(f, e.Site); adv {
+							o2 := core.Obligation{Key: key + " [stack depth]", Pos: p.Pos(e.Site.Pos()), Nontrivial: true}
+							if bounded != "" {
+								o2.Status = core.Discharged
+								o2.Detail = "the call advances " + what + " through the haystack, and " + bounded + " counts towards a length taken from the compiled pattern: the nesting depth does not grow with the input"
+							} else {
+								o2.Status = core.Violated
+								o2.Detail = "the call advances " + what + " through the haystack and no argument counts towards a pattern-sized bound: the nesting depth grows with the input, and the runtime kills the process when a goroutine stack passes its limit (fatal error: stack overflow - not a recoverable panic)"
+							}
+							res.Obligations = append(res.Obligations, o2)
+						}
 					}
 				}
 			}
